@@ -37,7 +37,7 @@ def client_api_action(r, p=gv.SMALL):
         return ("bind_sasl", r.choice(["GSSAPI", "", "EXTERNAL"]), r.choice([None, "cn=a"]), r.choice([None, b"", b"tok"]), _ctl(r))
     if x < 0.62:
         flt = gv.g_filter(r, p) if r.random() < 0.5 else None
-        return ("search", r.choice([None, "", "dc=x"]), r.choice([0, 1, 2]), r.choice([0, 1, 2, 3]), r.choice([0, 5, 1000]), r.choice([0, 60]),
+        return ("search", r.choice([None, "", "dc=x"]), r.choice([0, 1, 2]), r.choice([0, 1, 2, 3]), r.choice([0, 5, 1000, 2**30, 2**30 + 1, 2**31 - 1]), r.choice([0, 60, 2**30 + 7, 2**31 - 1]),
                 r.random() < 0.3, flt, r.choice([None, (), ("cn",), ("*", "+")]), _ctl(r))
     if x < 0.88:
         name = r.choice(["1.3.6.1.4.1.1466.20037", "1.2.3", NOTICE_OID])
